@@ -322,7 +322,9 @@ def r2_r3(ctx, L, hs):
             return False, "?"
         fs = dict((a, b) for a, b in it["fs"])
         N = e1.Norm(c, envT)
-        return (str(N.norm(fs["start"])) == "0" and N.norm(fs["end"]) == Rat.atom("T") - 1), str(N.norm(fs["end"]))
+        from ..hir import resolve as _rs13, let_table as _lt13
+        end_ = _rs13(fs["end"], _lt13(fn["body"]))         # a bound named by an immutable `let` is that expression
+        return (str(N.norm(fs["start"])) == "0" and N.norm(end_) == Rat.atom("T") - 1), str(N.norm(end_))
     okl = False
     got = "?"
     init_inc = strip(inc["init"]) if inc is not None and inc.get("init") is not None else None
